@@ -85,6 +85,7 @@ import (
 	"go/format"
 	"go/token"
 	"go/types"
+	"math"
 	"os"
 	"path/filepath"
 	"sort"
@@ -132,7 +133,7 @@ var enumCtors = map[string][]string{
 // conversion arithmetic), anyOf (variadic range), failf
 var helperMethods = []string{"keyword", "peekKeyword", "token", "optionalToken", "identifier", "stringIdentifier", "uint",
 	"optionalUint", "float", "intInRange", "enumValue", "optionalObjectType", "messageID", "signalValueType",
-	"environmentVariableType", "attributeValueType", "accessType", "discardLine", "string"}
+	"environmentVariableType", "attributeValueType", "accessType", "discardLine", "string", "int"}
 
 var enumOf = map[string]string{"ObjectType": "object_type_of", "AttributeValueType": "attr_type_of", "AccessType": "access_type_of"}
 
@@ -312,6 +313,10 @@ func constString(e ast.Expr) (string, bool) {
 // expr: pure Gallina expression for e; parser calls / partial operations inside are hoisted into *pre
 func (c *mctx) expr(e ast.Expr, pre *[]string) string {
 	if tv, ok := info.Types[e]; ok && tv.Value != nil {
+		if b, ok := tv.Type.Underlying().(*types.Basic); ok && b.Kind() == types.Float64 {
+			f, _ := constant.Float64Val(constant.ToFloat(tv.Value)) // the float64 nearest to the constant
+			return fmt.Sprint(math.Float64bits(f))
+		}
 		if id, ok := e.(*ast.Ident); ok {
 			if k, ok := enumConst[id.Name]; ok {
 				return k
@@ -373,6 +378,9 @@ func (c *mctx) expr(e ast.Expr, pre *[]string) string {
 		if x.Op == token.NOT {
 			return "(negb " + c.expr(x.X, pre) + ")"
 		}
+		if b, ok := info.TypeOf(x.X).Underlying().(*types.Basic); ok && x.Op == token.SUB && (b.Kind() == types.Int64 || b.Kind() == types.Int) {
+			return "(neg64 " + c.expr(x.X, pre) + ")" // -x with wrap-around
+		}
 		failAt(e, "unary operator %s", x.Op)
 	case *ast.BinaryExpr:
 		switch x.Op {
@@ -406,7 +414,19 @@ func (c *mctx) expr(e ast.Expr, pre *[]string) string {
 					r = "(" + b + " <=? " + a + ")"
 				}
 				if b64, ok := info.TypeOf(x.X).Underlying().(*types.Basic); ok && b64.Kind() == types.Float64 {
-					failAt(e, "float64 comparison")
+					// order of two non-NaN float64 values on their bit patterns (ParserGlue.b64_le / b64_lt)
+					switch x.Op {
+					case token.LSS:
+						r = "(b64_lt " + a + " " + b + ")"
+					case token.LEQ:
+						r = "(b64_le " + a + " " + b + ")"
+					case token.GTR:
+						r = "(b64_lt " + b + " " + a + ")"
+					case token.GEQ:
+						r = "(b64_le " + b + " " + a + ")"
+					default:
+						failAt(e, "float64 equality")
+					}
 				}
 			case ct == "bytes" && (x.Op == token.EQL || x.Op == token.NEQ):
 				r = "(bytes_eqb " + a + " " + b + ")"
@@ -476,6 +496,12 @@ func (c *mctx) expr(e ast.Expr, pre *[]string) string {
 						}
 					}
 					return "(to_uint64 " + a + ")"
+				}
+				if fb != nil && tb != nil && fb.Kind() == types.Uint64 && tb.Kind() == types.Int64 {
+					return "(to_int64 " + a + ")"
+				}
+				if fb != nil && tb != nil && fb.Kind() == types.Float64 && tb.Kind() == types.Int64 {
+					return "(b64_to_int64 " + a + ")"
 				}
 				if fb != nil && tb != nil && fb.Kind() == types.Uint64 && tb.Kind() == types.Uint32 {
 					return "(" + a + " mod 2 ^ 32)"
@@ -900,6 +926,28 @@ func (c *mctx) assign(x *ast.AssignStmt, rest []ast.Stmt, k string) string {
 		}
 	}
 	// i, err := strconv.Atoi(s); if err != nil [|| c] { ... failf }
+	if len(x.Lhs) == 2 && len(x.Rhs) == 1 && x.Tok == token.DEFINE && len(rest) == 1 {
+		// u, err := strconv.ParseUint(s, 10, 64); if err == nil || errors.Is(err, strconv.ErrRange) { switch {... every arm returns} }
+		// (-> DecFloat.parse_uint_r: UOk u / URange with u = math.MaxUint64 / USyntax = fall through)
+		if call, ok := x.Rhs[0].(*ast.CallExpr); ok && strings.HasPrefix(srcOf(call), "strconv.ParseUint(") {
+			if ifs, ok := rest[0].(*ast.IfStmt); ok && ifs.Init == nil && ifs.Else == nil {
+				v, okv := x.Lhs[0].(*ast.Ident)
+				er, oke := x.Lhs[1].(*ast.Ident)
+				if okv && oke && srcOf(ifs.Cond) == er.Name+"==nil||errors.Is("+er.Name+",strconv.ErrRange)" &&
+					len(ifs.Body.List) == 1 && strconvFn(call) == "parse_uint" {
+					if _, isSw := ifs.Body.List[0].(*ast.SwitchStmt); isSw {
+						var pre []string
+						arg := c.expr(call.Args[0], &pre)
+						body := c.scoped(func() string {
+							c.declare(v, v.Name, "Z")
+							return c.stmts(ifs.Body.List, "panic")
+						})
+						return wrap(pre, fmt.Sprintf("match (match parse_uint_r %s with UOk u => Some u | URange => Some (two64 - 1) | USyntax => None end) with Some %s => %s | None => %s end", arg, v.Name, body, k))
+					}
+				}
+			}
+		}
+	}
 	if len(x.Lhs) == 2 && len(x.Rhs) == 1 && x.Tok == token.DEFINE {
 		call, ok := x.Rhs[0].(*ast.CallExpr)
 		if ok {
@@ -1162,6 +1210,19 @@ func (c *mctx) ifStmt(x *ast.IfStmt, rest []ast.Stmt, k string) string {
 	if x.Else == nil && c.terminates(x.Body.List) {
 		body := c.scoped(func() string { return c.stmts(x.Body.List, "panic") })
 		return c.cond(x.Cond, body, c.stmts(rest, k))
+	}
+	hasReturn := false
+	ast.Inspect(x.Body, func(n ast.Node) bool {
+		if _, ok := n.(*ast.ReturnStmt); ok {
+			hasReturn = true
+		}
+		return true
+	})
+	if x.Else == nil && hasReturn && c.breakK == "" {
+		// a body that may return or fall through: the following statements are its continuation and the else arm
+		restS := c.scoped(func() string { return c.stmts(rest, k) })
+		body := c.scoped(func() string { return c.stmts(x.Body.List, restS) })
+		return c.cond(x.Cond, body, restS)
 	}
 	vs := c.assigned(append(append([]ast.Stmt{}, x.Body.List...), elseList...))
 	kr := "ret " + tuple(vs)
